@@ -76,6 +76,12 @@ def oracle_crosschecks(seed=12345, n=400):
             if (w in L) != rcfg.cyk_accepts(g, w):
                 bad += _fail('cfg: fixpoint vs CYK disagree on %r for %s' % (w, json.dumps(g)))
                 break
+        for w in sorted(L):
+            if w:
+                d = rcfg.leftmost_derivation(g, w)
+                if d is None or rcfg.check_derivation(g, d, w, 'leftmost'):
+                    bad += _fail('cfg: reference derivation of %r rejected by the reference checker for %s' % (w, json.dumps(g)))
+                    break
     # --- pda: summaries vs capped BFS
     decided = undecided = 0
     for i in range(n):
